@@ -101,7 +101,9 @@ def gen (n : Nat) : G (List String) := do
         | 2 => do pure (Spec.Sflow.encode (← Sflow.genDatagram))
         | _ => bytesOf (← range 0 80)
       let d ← mutate d0
-      out := out ++ ["call v5 " ++ hexOf d, "call nf x" ++ toString i ++ " " ++ hexOf d, "call sf " ++ hexOf d]
+      -- the three decoders directly (the NetFlow and sFlow ones print the raw producer's JSON of what they decoded as well), and the
+      -- raw producer's JSON of a v5 packet
+      out := out ++ ["call v5 " ++ hexOf d, "call nf x" ++ toString i ++ " " ++ hexOf d, "call sf " ++ hexOf d, "call rawv5 " ++ hexOf d]
     -- sampling announcements (including interval 0 after a rate is known) followed by more traffic
     out := out ++ (← C11.genHistory (if i % 2 = 0 then "nf" else "auto") 14)
     -- mapping files with layer statements: complete, truncated and mutated frames through the dissector
